@@ -236,7 +236,9 @@ func build(m Msg, net *sim.Net, v *sim.Node, byz []int, known []types.BlockID, p
 			b.invalid = true
 		case 3:
 			vote.Type = byte(pick(f(6), 3, 255))
-			b.invalid = true
+			if vote.Type != typ {
+				b.invalid = true // unknown type, or the other type with a signature made for this one
+			}
 		case 4:
 			vote.Signature = nil
 			b.invalid = true
